@@ -131,6 +131,7 @@ class ConfigMachine(RuleBasedStateMachine):
         self.net = F.FakeNet(self.respond)
         self.net.__enter__()
         self.ofxhome = {}
+        self.accts = []
         self.history = []
         self.flags = set()
         self.default_clientuid = None
@@ -150,6 +151,8 @@ class ConfigMachine(RuleBasedStateMachine):
             id_ = q.get("lookup", [""])[0]
             self.flags.add("ofxhome consulted")
             return 200, [], ofxhome_xml(id_, self.ofxhome.get(id_, {}))
+        if b"<ACCTINFORQ>" in (rec["data"] or b""):
+            return 200, [], F.acctinfo_response(self.accts)
         if b"<PROFRQ>" in (rec["data"] or b""):
             return 200, [], F.profile_response({"BANKMSGSET": rec["url"], "CREDITCARDMSGSET": rec["url"], "INVSTMTMSGSET": rec["url"]}, F.dt_tag(2020), code=0)
         return 200, [], b"OFXHEADER:100\r\n\r\n<OFX>fixture</OFX>"
@@ -216,7 +219,7 @@ class ConfigMachine(RuleBasedStateMachine):
         cli=st.dictionaries(st.sampled_from(PERSISTABLE), st.integers(0, 10**6), max_size=6),
         user=st.dictionaries(st.sampled_from(PERSISTABLE), st.tuples(st.integers(0, 10**6), st.integers(0, 20)), max_size=6),
         oh=st.dictionaries(st.sampled_from(["101", "202", "303"]), st.lists(st.sampled_from(OFXHOME_OPTS), max_size=4), max_size=3),
-        mode=st.sampled_from(["merge", "merge", "write", "write", "dry-write"]), data=st.data(),
+        mode=st.sampled_from(["merge", "merge", "write", "write", "dry-write", "acctinfo-write"]), data=st.data(),
     )
     def run(self, nick_i, fresh, cli, user, oh, mode, data):
         nicks = fidb_nicks()
@@ -234,11 +237,23 @@ class ConfigMachine(RuleBasedStateMachine):
             cli_vals.pop("unclosedelements", None)
             user_vals.pop("unclosedelements", None)
         step = ["run", nick, mode, {o: v for o, v in cli_vals.items()}, {o: text_form(o, v, k) for o, (v, k) in user_vals.items()}, {i: dict(r) for i, r in self.ofxhome.items()}]
+        if mode == "acctinfo-write":
+            accts = []
+            for i in range(data.draw(st.integers(0, 5), label="n accounts")):
+                kind = data.draw(st.sampled_from(["bank", "bank", "cc", "inv"]), label="kind")
+                a = {"kind": kind, "acctid": data.draw(ACCT, label="acctid"), "status": data.draw(st.sampled_from(["ACTIVE", "ACTIVE", "AVAIL", "PEND"]), label="status"), "group": i}
+                if kind == "bank":
+                    a.update(bankid="987654321", accttype=data.draw(st.sampled_from(["CHECKING", "SAVINGS", "MONEYMRKT", "CREDITLINE"]), label="accttype"))
+                if kind == "inv":
+                    a["brokerid"] = "disc.broker.com"
+                accts.append(a)
+            step.append(accts)
         self.history.append(step)
         self.execute(step)
 
     def execute(self, step):
-        _, nick, mode, cli_vals, user_texts, ofxhome = step
+        _, nick, mode, cli_vals, user_texts, ofxhome = step[:6]
+        self.accts = step[6] if len(step) > 6 else []
         self.ofxhome = {i: dict(r) for i, r in ofxhome.items()}
         # -- edit the user file (independent writer)
         if user_texts:
@@ -253,7 +268,11 @@ class ConfigMachine(RuleBasedStateMachine):
             p.parent.mkdir(parents=True, exist_ok=True)
             with open(p, "w") as f:
                 cp.write(f)
-        argv = ["stmt", nick]
+        argv = ["acctinfo" if mode == "acctinfo-write" else "stmt", nick]
+        if mode == "acctinfo-write":
+            # the acctinfo sub-command has no statement options; a user name is required
+            cli_vals = {o: v for o, v in cli_vals.items() if o not in LIST_OPTS and o not in ("bankid", "brokerid")}
+            cli_vals.setdefault("user", "joe")
         for o, v in sorted(cli_vals.items()):
             if o in BOOL_OPTS:
                 argv.append("--" + o)
@@ -262,7 +281,7 @@ class ConfigMachine(RuleBasedStateMachine):
                     argv += [CLI_FLAG[o], a]
             else:
                 argv += [CLI_FLAG.get(o, "--" + o), str(v)]
-        if mode == "write":
+        if mode in ("write", "acctinfo-write"):
             argv += ["--write", "--password", PASSWORD]
         elif mode == "dry-write":
             argv += ["--write", "--dryrun"]
@@ -340,16 +359,40 @@ class ConfigMachine(RuleBasedStateMachine):
         elif self.default_clientuid is not None and cu != self.default_clientuid:
             self.fail("default-clientuid-changed", f"{self.default_clientuid} -> {cu}")
         self.default_clientuid = cu or self.default_clientuid
-        if any(r.effective[o] not in NULLS and r.effective[o] != r.module.DEFAULTS[o] for o in PERSISTABLE):
+        if any(r.effective[o] not in NULLS and r.effective[o] != r.module.DEFAULTS[o] for o in PERSISTABLE):  # noqa
             self.flags.add("write-differs-from-default")
+        eff = r.effective
+        if mode == "acctinfo-write":
+            # discovered accounts have been merged below the command line and above the files
+            eff = {k: r.merged[k] for k in r.module.DEFAULTS}
+            self.flags.add("acctinfo --write")
+            want = {t: [] for t in LIST_OPTS}
+            for a in self.accts:
+                if a["status"] != "ACTIVE":
+                    continue
+                t = {"cc": "creditcard", "inv": "investment"}.get(a["kind"]) or a["accttype"].lower()
+                want[t].append(a["acctid"])
+            for t, ids in want.items():
+                if ids and sorted(eff[t] or []) != sorted(ids):
+                    self.fail(f"discovered-accounts-wrong/{t}", f"{argv}: ACTIVE {t} accounts {ids}, settings in effect {eff[t]!r}")
+            inactive = {a["acctid"] for a in self.accts if a["status"] != "ACTIVE"} - {a["acctid"] for a in self.accts if a["status"] == "ACTIVE"}
+            for t in LIST_OPTS:
+                user_ids = set(G.typed(list, user_texts[t])) if t in user_texts else set()
+                if (set(eff[t] or []) & inactive) - user_ids and t in want and want[t]:
+                    self.fail("inactive-account-stored", f"{argv}: {t}={eff[t]!r}")
         # (2) persistence: same nickname, no command-line options
         r2 = G.run(self.root, ["stmt", nick], handler=False)
         if r2.merged is None:
             self.fail("rerun-after-write-fails", f"{r2.raised!r}")
             return
         for o in PERSISTABLE:
-            a, b = r.effective[o], r2.effective[o]
+            a, b = eff[o], r2.effective[o]
             if (a in NULLS) and (b in NULLS):
+                continue
+            if mode == "acctinfo-write" and a in NULLS and r.effective[o] not in NULLS:
+                # the discovery found no ACTIVE account of this kind and shadows a configured list with an empty one:
+                # whether "empty" sets or unsets is not stated (same rule as for empty values in the files)
+                self.flags.add("skipped: empty discovered list over a configured one")
                 continue
             if o == "clientuid" and a in NULLS:
                 if b != cu and "clientuid" not in self.ambiguous:
